@@ -52,6 +52,12 @@ UK == << Fe("F1", <<>>, <<"run">>, <<Sc("S1", <<"retry(1)">>, <<"run">>)>>,
          Fe("F2", <<"allow.skipped">>, <<>>, <<Sc("S3", <<>>, <<"run">>)>>, <<>>),
          Fe("F3", <<>>, <<>>, <<Sc("S4", <<"allow.skipped">>, <<"run">>)>>, <<>>) >>
 
+\* filtering (C15): tags a, b, c on all three levels
+UF == << Fe("F1", <<"a">>, <<"run">>, <<Sc("S1", <<"b">>, <<"run">>), Sc("S2", <<>>, <<"run">>)>>,
+            <<Ru("R1", <<"c">>, <<"run">>, <<Sc("S3", <<"b">>, <<"run">>), Sc("S4", <<>>, <<"run">>)>>),
+              Ru("R2", <<>>, <<>>, <<Sc("S5", <<"c", "b">>, <<"run">>)>>)>>),
+         Fe("F2", <<>>, <<>>, <<Sc("S6", <<"a">>, <<"run">>), Sc("S7", <<>>, <<"run">>)>>, <<>>) >>
+
 Fails1 == [s \in {"S1", "S2", "S3"} |-> 1]   \* every retried scenario fails once
 Fails0 == [s \in {"S1", "S2", "S3"} |-> 0]
 FailsAll == [s \in {"S1", "S2", "S3"} |-> 5]
